@@ -485,3 +485,15 @@ package types
 //@   prop C20
 //@   modifies a
 //@   ensures @accepts-only-exact-length result == nil ==> len(b) == 76
+//@ func (*AttestationID).UnmarshalText
+//@   prop C20
+//@   modifies aid
+//@   ensures @accepts-only-exact-length result == nil ==> len(b) == 64
+//@ func (*SiacoinOutputID).UnmarshalText
+//@   prop C20
+//@   modifies scoid
+//@   ensures @accepts-only-exact-length result == nil ==> len(b) == 64
+//@ func (*SiafundOutputID).UnmarshalText
+//@   prop C20
+//@   modifies sfoid
+//@   ensures @accepts-only-exact-length result == nil ==> len(b) == 64
